@@ -20,6 +20,11 @@ void __tsan_switch_to_fiber(void *fiber, unsigned flags);
 int __real_pthread_mutex_lock(pthread_mutex_t *);
 int __real_pthread_mutex_unlock(pthread_mutex_t *);
 int __real_pthread_mutex_trylock(pthread_mutex_t *);
+int __real_pthread_rwlock_rdlock(pthread_rwlock_t *);
+int __real_pthread_rwlock_wrlock(pthread_rwlock_t *);
+int __real_pthread_rwlock_tryrdlock(pthread_rwlock_t *);
+int __real_pthread_rwlock_trywrlock(pthread_rwlock_t *);
+int __real_pthread_rwlock_unlock(pthread_rwlock_t *);
 }
 
 namespace
@@ -52,6 +57,7 @@ struct Fiber
   void *tsan = nullptr;
   State state = State::fresh;
   pthread_mutex_t *waiting = nullptr;
+  pthread_rwlock_t *waiting_rw = nullptr;
   std::function<void()> const *body = nullptr;
   long priority = 0;
   unsigned held = 0;
@@ -63,6 +69,16 @@ struct Owner
 {
   pthread_mutex_t *m;
   int fiber;
+  unsigned depth; // > 1 only for recursive mutexes
+};
+
+// reader/writer locks (std::shared_mutex): simulated ownership
+struct RwOwner
+{
+  pthread_rwlock_t *l;
+  int writer;                 // fiber holding it exclusively, or -1
+  int readers[8];             // fibers holding it shared
+  unsigned nreaders;
 };
 
 struct Sched
@@ -71,6 +87,7 @@ struct Sched
   void *main_tsan = nullptr;
   std::vector<Fiber> fibers;
   std::vector<Owner> owners;
+  std::vector<RwOwner> rwowners;
   std::vector<void const *> objects;
   int cur = -1;
   bool active = false;
@@ -334,6 +351,8 @@ Result run(std::vector<std::function<void()>> const &bodies, Config const &cfg)
   // container inside a fiber would show up as a race on the scheduler's own memory.
   g.res.choices.reserve(static_cast<std::size_t>(cfg.max_steps) + 64);
   g.owners.reserve(64);
+  g.rwowners.clear();
+  g.rwowners.reserve(16);
   g.objects.reserve(4096);
   g_history.reserve(8192);
   g.main_tsan = __tsan_get_current_fiber();
@@ -406,6 +425,9 @@ Result run(std::vector<std::function<void()>> const &bodies, Config const &cfg)
     g.res.fiber_errors.push_back(f.error);
   g.res.tsan_reports = g_tsan_reports - before_reports;
   g.res.locks_held_at_end = static_cast<unsigned>(g.owners.size());
+  for (RwOwner const &r : g.rwowners)
+    if (r.writer >= 0 || r.nreaders != 0)
+      ++g.res.locks_held_at_end;
   g.res.alloc_faults_fired = g_fault_total;
   g_fault_total = 0;
   g_fault_fiber = -2;
@@ -450,7 +472,7 @@ int __wrap_pthread_mutex_lock(pthread_mutex_t *m)
   if (!g.active || g.cur < 0)
     return __real_pthread_mutex_lock(m);
   sched_point(K_LOCK, m);
-  while (owner_of(m) >= 0)
+  while (owner_of(m) >= 0 && owner_of(m) != g.cur)
   {
     Fiber &self = g.fibers[static_cast<std::size_t>(g.cur)];
     self.state = State::parked;
@@ -458,8 +480,17 @@ int __wrap_pthread_mutex_lock(pthread_mutex_t *m)
     ++g.res.parked;
     must_switch();
   }
+  if (owner_of(m) == g.cur)
+  {
+    // re-locking a mutex the fiber already owns: fine for a recursive mutex; for a plain one the
+    // real call below blocks forever, which the per-run watchdog reports as `hang`
+    for (Owner &o : g.owners)
+      if (o.m == m)
+        ++o.depth;
+    return __real_pthread_mutex_lock(m);
+  }
   if (g.owners.size() < g.owners.capacity())
-    g.owners.push_back(Owner{m, g.cur});
+    g.owners.push_back(Owner{m, g.cur, 1});
   ++g.fibers[static_cast<std::size_t>(g.cur)].held;
   return __real_pthread_mutex_lock(m);
 }
@@ -471,7 +502,7 @@ int __wrap_pthread_mutex_trylock(pthread_mutex_t *m)
   sched_point(K_LOCK, m);
   if (owner_of(m) >= 0)
     return 16; // EBUSY
-  g.owners.push_back(Owner{m, g.cur});
+  g.owners.push_back(Owner{m, g.cur, 1});
   ++g.fibers[static_cast<std::size_t>(g.cur)].held;
   return __real_pthread_mutex_trylock(m);
 }
@@ -484,6 +515,11 @@ int __wrap_pthread_mutex_unlock(pthread_mutex_t *m)
   for (std::size_t k = 0; k < g.owners.size(); ++k)
     if (g.owners[k].m == m)
     {
+      if (g.owners[k].depth > 1)
+      {
+        --g.owners[k].depth;
+        return r;
+      }
       g.owners.erase(g.owners.begin() + static_cast<std::ptrdiff_t>(k));
       break;
     }
@@ -497,6 +533,106 @@ int __wrap_pthread_mutex_unlock(pthread_mutex_t *m)
     }
   sched_point(K_UNLOCK, m);
   return r;
+}
+
+// ---- reader/writer locks (std::shared_mutex)
+namespace
+{
+RwOwner &rw_entry(pthread_rwlock_t *l)
+{
+  for (RwOwner &r : g.rwowners)
+    if (r.l == l)
+      return r;
+  g.rwowners.push_back(RwOwner{l, -1, {}, 0});
+  return g.rwowners.back();
+}
+void rw_park(pthread_rwlock_t *l)
+{
+  Fiber &self = g.fibers[static_cast<std::size_t>(g.cur)];
+  self.state = State::parked;
+  self.waiting_rw = l;
+  ++g.res.parked;
+  must_switch();
+}
+}
+
+int __wrap_pthread_rwlock_rdlock(pthread_rwlock_t *l)
+{
+  if (!g.active || g.cur < 0)
+    return __real_pthread_rwlock_rdlock(l);
+  sched_point(K_LOCK, l);
+  while (rw_entry(l).writer >= 0)
+    rw_park(l);
+  RwOwner &r = rw_entry(l);
+  if (r.nreaders < 8)
+    r.readers[r.nreaders++] = g.cur;
+  ++g.fibers[static_cast<std::size_t>(g.cur)].held;
+  return __real_pthread_rwlock_rdlock(l);
+}
+
+int __wrap_pthread_rwlock_tryrdlock(pthread_rwlock_t *l)
+{
+  if (!g.active || g.cur < 0)
+    return __real_pthread_rwlock_tryrdlock(l);
+  sched_point(K_LOCK, l);
+  if (rw_entry(l).writer >= 0)
+    return 16;
+  RwOwner &r = rw_entry(l);
+  if (r.nreaders < 8)
+    r.readers[r.nreaders++] = g.cur;
+  ++g.fibers[static_cast<std::size_t>(g.cur)].held;
+  return __real_pthread_rwlock_tryrdlock(l);
+}
+
+int __wrap_pthread_rwlock_wrlock(pthread_rwlock_t *l)
+{
+  if (!g.active || g.cur < 0)
+    return __real_pthread_rwlock_wrlock(l);
+  sched_point(K_LOCK, l);
+  while (rw_entry(l).writer >= 0 || rw_entry(l).nreaders != 0)
+    rw_park(l);
+  rw_entry(l).writer = g.cur;
+  ++g.fibers[static_cast<std::size_t>(g.cur)].held;
+  return __real_pthread_rwlock_wrlock(l);
+}
+
+int __wrap_pthread_rwlock_trywrlock(pthread_rwlock_t *l)
+{
+  if (!g.active || g.cur < 0)
+    return __real_pthread_rwlock_trywrlock(l);
+  sched_point(K_LOCK, l);
+  if (rw_entry(l).writer >= 0 || rw_entry(l).nreaders != 0)
+    return 16;
+  rw_entry(l).writer = g.cur;
+  ++g.fibers[static_cast<std::size_t>(g.cur)].held;
+  return __real_pthread_rwlock_trywrlock(l);
+}
+
+int __wrap_pthread_rwlock_unlock(pthread_rwlock_t *l)
+{
+  if (!g.active || g.cur < 0)
+    return __real_pthread_rwlock_unlock(l);
+  int const res = __real_pthread_rwlock_unlock(l);
+  RwOwner &r = rw_entry(l);
+  if (r.writer == g.cur)
+    r.writer = -1;
+  else
+    for (unsigned k = 0; k < r.nreaders; ++k)
+      if (r.readers[k] == g.cur)
+      {
+        r.readers[k] = r.readers[--r.nreaders];
+        break;
+      }
+  if (g.fibers[static_cast<std::size_t>(g.cur)].held != 0)
+    --g.fibers[static_cast<std::size_t>(g.cur)].held;
+  for (Fiber &f : g.fibers)
+    if (f.state == State::parked && f.waiting_rw == l)
+    {
+      f.state = State::runnable;
+      f.waiting_rw = nullptr;
+    }
+  sched_point(K_UNLOCK, l);
+  return res;
 }
 
 // ThreadSanitizer's atomic entry points (every std::atomic access of instrumented code)
